@@ -1,7 +1,7 @@
 """C18 — format and options validation (DESIGN §4)."""
 from rules import fmt as F
 from rules import extra as X
-from rules.core import guarded
+from rules.core import guarded, guarded_soft
 from rules import opts as O
 
 INFO = {
@@ -19,10 +19,10 @@ def run(col, configs, tier):
         guarded(col, F.rule_format_error, facts)
         guarded(col, F.rule_build_strict, facts)
         guarded(col, F.rule_entry_validation, facts)
-        guarded(col, X.rule_byte_predicates, facts)
-        guarded(col, X.rule_control_radices, facts)
-        guarded(col, X.rule_punctuation_pairs, facts)
-        guarded(col, X.rule_options_punctuation_pairs, facts)
+        guarded_soft(col, X.rule_byte_predicates, facts)
+        guarded_soft(col, X.rule_control_radices, facts)
+        guarded_soft(col, X.rule_punctuation_pairs, facts)
+        guarded_soft(col, X.rule_options_punctuation_pairs, facts)
         from rules import dispatch as D18
         guarded(col, D18.rule_check_radix_table, facts)
         for crate in ("lexical_write_float", "lexical_parse_float", "lexical_write_integer", "lexical_parse_integer"):
